@@ -60,8 +60,23 @@ func zzWebseedChecks(t *torrent) {
 //vrt:cover ZZPickerWebseed3 web-seed range handed out while the peer is downloading
 func ZZPickerWebseed3() { zzPickerWebseed(3) }
 
+// ZZPickerWebseed2: 2 events.
+//
+//vrt:cover ZZPickerWebseed2 two web seeds downloading
+func ZZPickerWebseed2() { zzPickerWebseed(2) }
+
 // ZZPickerWebseed4: 4 events.
 func ZZPickerWebseed4() { zzPickerWebseed(4) }
+
+// ZZPickerWebseedLate: the 3-event script unchoke, web-seed retry, peer completes
+// its piece (everything else arbitrary), after the web seeds failed at first.
+func ZZPickerWebseedLate() {
+	zzWebseedScript = []int{0, 5, 2}
+	zzPickerWebseed(3)
+	zzWebseedScript = nil
+}
+
+var zzWebseedScript []int
 
 func zzPickerWebseed(steps int) {
 	info := metainfo.ZZConcreteInfo(zzPieceLen, zzPickPieces, []int64{zzPieceLen * zzPickPieces}, false)
@@ -76,16 +91,23 @@ func zzPickerWebseed(steps int) {
 	}
 	zzStartDownloading(t, sto)
 	zzWebseedChecks(t)
-	// the web seeds may have failed right away (their retry is pending), so that
-	// peers get pieces before any web-seed range is handed out
-	if vrt.Bool("web_seeds_failed_at_first") {
-		for _, src := range t.webseedSources {
-			if src.Downloader != nil {
-				t.handleWebseedPieceResult(&urldownloader.PieceResult{Downloader: src.Downloader, Error: vrt.ErrIO})
-			}
+	// Range length cap: 1..3 pieces (the picker's own value for a 3-piece torrent
+	// is 1; 2 and 3 stand for larger torrents, see ZZSetMaxWebseedPieces). The
+	// ranges handed out at start used the default, so the web seeds are made to
+	// fail once and - arbitrarily - retried at once or later (event 5), which
+	// also lets peers get pieces before any web-seed range exists.
+	for _, src := range t.webseedSources {
+		if src.Downloader != nil {
+			t.handleWebseedPieceResult(&urldownloader.PieceResult{Downloader: src.Downloader, Error: vrt.ErrIO})
 		}
-		zzWebseedChecks(t)
 	}
+	t.piecePicker.ZZSetMaxWebseedPieces(vrt.Choice("webseed_range_cap", 3) + 1)
+	if vrt.Bool("web_seeds_retried_at_once") {
+		for _, src := range t.webseedSources {
+			t.startPieceDownloaderForWebseed(src)
+		}
+	}
+	zzWebseedChecks(t)
 	pe := zzAddPeer(t, 1, false, zzFastExt)
 	if pe == nil {
 		vrt.Assert(false, "peer not added")
@@ -105,7 +127,13 @@ func zzPickerWebseed(steps int) {
 			}
 		}
 		vrt.Cover(n == 2, "two web seeds downloading")
-		switch vrt.Choice("event", 6) {
+		ev := 0
+		if zzWebseedScript != nil {
+			ev = zzWebseedScript[step]
+		} else {
+			ev = vrt.Choice("event", 6)
+		}
+		switch ev {
 		case 0:
 			vrt.Assume(!pe.Closed)
 			t.handlePeerMessage(peer.Message{Peer: pe, Message: peerprotocol.UnchokeMessage{}})
